@@ -5,7 +5,7 @@ import re, json, os
 DIRECTIVES = {
     'unit', 'serves', 'module', 'features', 'prelude', 'specs', 'flags', 'assumptions', 'item',
     'pre_attrs', 'requires', 'ensures', 'decreases', 'keep_fields', 'derives', 'loop', 'closure',
-    'params', 'cret', 'crequires', 'censures', 'adapter', 'bind', 'insert', 'wrap', 'carries', 'adapt', 'eta', 'omit', 'drop', 'brk_type', 'assumed_begin', 'assumed_end', 'sentinel_specs', 'nosentinel', 'note', 'carve',
+    'params', 'cret', 'crequires', 'censures', 'adapter', 'bind', 'insert', 'wrap', 'carries', 'adapt', 'eta', 'omit', 'drop', 'brk_type', 'let_type', 'assumed_begin', 'assumed_end', 'sentinel_specs', 'nosentinel', 'note', 'carve',
 }
 
 _dir_re = re.compile(r'^\s*@([a-z_]+)\b(.*)$')
@@ -146,6 +146,9 @@ def parse(path):
         elif d == 'brk_type':
             k, _, ty = arg.partition(' ')
             item.setdefault('brk_types', {})[str(int(k))] = ty.strip()
+        elif d == 'let_type':
+            k, _, ty = arg.partition(' ')
+            item.setdefault('let_types', {})[k.strip()] = ty.strip()
         elif d == 'carries':
             item['carries'] = arg.split()
         elif d == 'keep_fields':
@@ -295,6 +298,8 @@ def job(u, sentinel=False, soft_inserts=False, drop_inserts=None, repo=None):
             j['drop_nested'] = nested
         if it.get('brk_types'):
             j['brk_types'] = it['brk_types']
+        if it.get('let_types'):
+            j['let_types'] = it['let_types']
         items.append(j)
     repo = repo or os.environ.get('VERIF_REPO', '/repo')
     import glob
